@@ -24,18 +24,20 @@ Fixpoint B (len : Z) (ws : list int) : list Z :=
    A payload of n bytes is not printed: it is regenerated from a seed by the
    linear congruential generator x := (x*1664525 + 1013904223) mod 2^32,
    byte = x / 2^24; a large observed frame is projected to (length, fingerprint)
-   with fingerprint h := (h*257 + byte + 1) mod (2^61 - 1). All tail recursive:
+   with fingerprint h := (h*31 + byte + 1) mod (2^56 - 5), computed on primitive integers. All tail recursive:
    the lists have up to a few 10^5 elements. *)
-Fixpoint gen_bytes_acc (n : nat) (x : Z) (acc : list Z) : list Z :=
+Fixpoint gen_bytes_acc (n : nat) (x : int) (acc : list Z) : list Z :=
   match n with
   | O => rev' acc
-  | S k => let x' := (x * 1664525 + 1013904223) mod 4294967296 in
-           gen_bytes_acc k x' (x' / 16777216 :: acc)
+  | S k => let x' := Uint63.land (Uint63.add (Uint63.mul x 1664525%uint63) 1013904223%uint63) 4294967295%uint63 in
+           gen_bytes_acc k x' (Uint63.to_Z (Uint63.lsr x' 24%uint63) :: acc)
   end.
-Definition gen_bytes (seed n : Z) : list Z := gen_bytes_acc (Z.to_nat n) seed [].
+Definition gen_bytes (seed n : Z) : list Z := gen_bytes_acc (Z.to_nat n) (Uint63.of_Z seed) [].
 
+(* h < 2^56, so h*31 + 257 < 2^63: no overflow of the primitive integers *)
 Definition fingerprint (l : list Z) : Z :=
-  fold_left (fun h b => (h * 257 + b + 1) mod 2305843009213693951) l 0.
+  Uint63.to_Z (fold_left (fun h b =>
+    Uint63.mod (Uint63.add (Uint63.add (Uint63.mul h 31%uint63) (Uint63.of_Z b)) 1%uint63) 72057594037927931%uint63) l 0%uint63).
 
 (* tail-recursive append / concat / split of a stream into reads of given lengths *)
 Definition app_tr {A} (a b : list A) : list A := rev_append (rev' a) b.
